@@ -3,7 +3,7 @@
     Core Liquid Fragment, which the correspondence run ties to /repo).
     The theorems state the documented laws of that semantics. *)
 From LQ Require Import Core.Render Proofs.Value_proofs Proofs.Render_proofs Proofs.Render_buffer Proofs.Render_fuel Proofs.CrossModel.
-From LQ Require Import Proofs.Render_lambda.
+From LQ Require Import Proofs.Render_lambda Proofs.Value_decimal.
 
 (** Sequencing is compositional: rendering [l1 ++ l2] is rendering [l1] and
     then [l2] from where [l1] stopped; the meaning of a construct does not
@@ -135,3 +135,15 @@ Theorem c01_stopping_filters_ignore_items_after_match :
   eval (S f) c (EFilterL a lf p ip body) = eval (S f) c (EFilterL a' lf p ip body).
 Proof. exact (fun f => stopping_filter_ignores_tail (eval f)). Qed.
 Print Assumptions c01_stopping_filters_ignore_items_after_match.
+
+(** The Liquid string form of an integer denotes that integer, however large:
+    reading the digits back gives the same number, so distinct integers are
+    never printed alike (no precision is lost on the way to the output). *)
+Theorem c01_integer_output_denotes_the_integer : forall z,
+  to_liquid_string (VInt z) = Some (str_of_Z z) /\ int_of_str (str_of_Z z) = Some z.
+Proof. exact (fun z => conj eq_refl (int_of_str_of_Z z)). Qed.
+Print Assumptions c01_integer_output_denotes_the_integer.
+
+Theorem c01_integer_output_injective : forall a b, str_of_Z a = str_of_Z b -> a = b.
+Proof. exact str_of_Z_injective. Qed.
+Print Assumptions c01_integer_output_injective.
